@@ -533,6 +533,9 @@ func runC15(w *World) {
 			}
 		}
 	}
+	if mode == 6 && !w.failed() {
+		c15ModeRace(w, target)
+	}
 	w.stat("c15.commands_sent", checked)
 	w.nontriv = checked >= 50
 	w.sigExtra = fmt.Sprintf("mode%d/%v/seed%d", mode, midSync, w.seed)
@@ -543,4 +546,65 @@ func runC15(w *World) {
 		}
 		return s
 	}()}
+}
+
+// c15ModeRace (a directed schedule): a plain write is sent and its lock request held back; on
+// another connection READONLY yes is granted and acknowledged; then the write is let through.
+// The server had acknowledged being read-only before the write could execute: it must be refused
+// and change nothing - the mode test belongs to the same critical section as the write.
+func c15ModeRace(w *World, n *Node) {
+	inst := n.inst
+	admin := newObserver(w, n)
+	admin.a.from = "127.0.0.1:50077"
+	for _, c := range [][]string{
+		{"SET", "race", "x", "POINT", "1", "1"},
+		{"FSET", "fleet", "truck1", "raced", "1"},
+		{"DEL", "fleet", "truck1"},
+		{"EVAL", "return tile38.call('SET', 'race', 'y', 'POINT', 2, 2)", "0"},
+	} {
+		wa := w.addActor(n, "127.0.0.1:50078", []Cmd{{Args: c}})
+		wa.paused = true
+		inst.lock.holdConn = fmt.Sprintf("a%02d#", wa.id)
+		before := fmt.Sprintf("%s|aof=%d", inst.dump().text(true), inst.srv.aofsz)
+		wa.paused = false
+		w.Settle()
+		held := false
+		for _, r := range inst.lock.pending {
+			if r.conn != nil && strings.HasPrefix(r.conn.name, inst.lock.holdConn) {
+				held = true
+			}
+		}
+		v, ok := admin.do("READONLY", "yes")
+		inst.lock.holdConn = ""
+		if !ok || v.String() != "+OK" {
+			if !w.failed() {
+				w.harnessErr("mode race: READONLY yes answered %s", v.String())
+			}
+			return
+		}
+		w.Drain(10*time.Second, func() bool { return len(wa.ops) > 0 && wa.ops[0].Return >= 0 })
+		w.Settle()
+		if w.failed() {
+			return
+		}
+		if len(wa.ops) == 0 || wa.ops[0].Return < 0 {
+			w.harnessErr("mode race: [%s] got no reply", strings.Join(c, " "))
+			return
+		}
+		if held {
+			w.stat("probe.write_held_across_mode_switch", 1)
+			after := fmt.Sprintf("%s|aof=%d", inst.dump().text(true), inst.srv.aofsz)
+			if !wa.ops[0].Reply.isErr() || after != before {
+				w.violate("C15/gate", "[%s] was waiting for the lock when READONLY yes was granted and acknowledged; it was then answered %s and the dataset/log changed=%v: a read-only server executed a write",
+					clipStr(strings.Join(c, " "), 100), clipStr(wa.ops[0].Reply.String(), 100), after != before)
+				return
+			}
+		}
+		if v, ok := admin.do("READONLY", "no"); !ok || v.String() != "+OK" {
+			if !w.failed() {
+				w.harnessErr("mode race: READONLY no answered %s", v.String())
+			}
+			return
+		}
+	}
 }
